@@ -14,6 +14,8 @@
 //	indexwrite  assignment through an index expression m[k] = v (nil map / out of range)
 //	div     integer division or remainder by a non-literal, and big.Int Div/Quo/Mod/Rem/DivMod/QuoRem
 //	make    make(T, n) with a non-literal size
+//	nilptr  use of a `var x *big.Int` declared without a value (nil until a branch assigns it)
+// It also emits the case lists of the transaction-type switches of Tx.Validate and executeTx.
 //
 // Identical triples within one function are merged into one entry with their count.
 //
@@ -41,7 +43,7 @@ var pkgFiles = map[string][]string{
 	"contract/system":     nil,
 	"contract/name":       nil,
 	"contract/enterprise": nil,
-	"chain":               {"governance.go"},
+	"chain":               {"governance.go", "chainhandle.go"},
 }
 
 // package import name -> directory (calls `system.X(...)` from another package of the set are followed)
@@ -54,7 +56,14 @@ var roots = []string{
 	"system.ValidateSystemTx", "system.ExecuteSystemTx", "system.GetGasPrice", "system.GetNamePrice", "system.GetStakingMinimum",
 	"name.ValidateNameTx", "name.ExecuteNameTx", "name.Resolve", "name.GetAddress",
 	"enterprise.ValidateEnterpriseTx", "enterprise.ExecuteEnterpriseTx",
-	"chain.executeGovernanceTx",
+	"chain.executeGovernanceTx", "chain.executeTx",
+}
+
+// switch statements over the transaction type whose case lists are emitted: every type Tx.Validate admits
+// must have a case in executeTx's dispatch (a type without one leaves txFee nil)
+var typeSwitches = []struct{ fn, tag, out string }{
+	{"chain.executeTx", "txBody.Type", "exec_dispatch_types"},
+	{"types.transaction.Validate", "tx.GetBody().Type", "validate_types"},
 }
 
 type site struct{ fn, kind, expr string }
@@ -206,6 +215,44 @@ func main() {
 		fmt.Fprintf(&b, "  (%s, %s, %s, %d)%s\n", coqStr(m.s.fn), coqStr(m.s.kind), coqStr(m.s.expr), m.n, sep)
 	}
 	b.WriteString("].\n")
+	for _, ts := range typeSwitches {
+		f, ok := funcs[ts.fn]
+		if !ok {
+			fmt.Fprintln(os.Stderr, "type switch function not found:", ts.fn)
+			os.Exit(1)
+		}
+		var names []string
+		found := false
+		ast.Inspect(f.decl.Body, func(n ast.Node) bool {
+			sw, ok := n.(*ast.SwitchStmt)
+			if !ok || sw.Tag == nil || text(fset, sw.Tag) != ts.tag || found {
+				return true
+			}
+			found = true
+			for _, c := range sw.Body.List {
+				for _, e := range c.(*ast.CaseClause).List {
+					if se, ok := e.(*ast.SelectorExpr); ok {
+						names = append(names, se.Sel.Name)
+					} else {
+						names = append(names, text(fset, e))
+					}
+				}
+			}
+			return false
+		})
+		if !found {
+			fmt.Fprintln(os.Stderr, "type switch not found in", ts.fn)
+			os.Exit(1)
+		}
+		fmt.Fprintf(&b, "\nDefinition %s : list string := [", ts.out)
+		for i, n := range names {
+			if i > 0 {
+				b.WriteString("; ")
+			}
+			b.WriteString(coqStr(n))
+		}
+		b.WriteString("].\n")
+	}
 	if old, err := os.ReadFile(out); err == nil && bytes.Equal(old, b.Bytes()) {
 		return
 	}
@@ -233,6 +280,44 @@ func text(fset *token.FileSet, n ast.Node) string {
 
 func scan(fset *token.FileSet, fn string, body *ast.BlockStmt) []site {
 	var res []site
+	// variables declared `var x *big.Int` without a value: nil until some branch assigns them
+	nilable := map[string]bool{}
+	ast.Inspect(body, func(n ast.Node) bool {
+		if vs, ok := n.(*ast.ValueSpec); ok && len(vs.Values) == 0 && vs.Type != nil && text(fset, vs.Type) == "*big.Int" {
+			for _, id := range vs.Names {
+				nilable[id.Name] = true
+			}
+		}
+		return true
+	})
+	if len(nilable) > 0 {
+		ast.Inspect(body, func(n ast.Node) bool {
+			ce, ok := n.(*ast.CallExpr)
+			if !ok {
+				return true
+			}
+			se, isSel := ce.Fun.(*ast.SelectorExpr)
+			if !isSel {
+				return true
+			}
+			uses := false
+			if id, ok := se.X.(*ast.Ident); ok && nilable[id.Name] {
+				uses = true
+			}
+			switch se.Sel.Name { // big.Int methods dereference their *big.Int arguments
+			case "Add", "Sub", "Mul", "Div", "Quo", "Mod", "Cmp", "Set", "Neg", "Abs":
+				for _, a := range ce.Args {
+					if id, ok := a.(*ast.Ident); ok && nilable[id.Name] {
+						uses = true
+					}
+				}
+			}
+			if uses {
+				res = append(res, site{fn, "nilptr", text(fset, ce)})
+			}
+			return true
+		})
+	}
 	commaOK := map[*ast.TypeAssertExpr]bool{}
 	ast.Inspect(body, func(n ast.Node) bool {
 		switch x := n.(type) {
